@@ -222,9 +222,10 @@ Definition rename2 (t : tree) (src dst : path) : res tree :=
           | [], _ | _, [] => Err EBUSY
           | _, _ =>
               if path_eqb qs qd then Ok t else
+              if is_prefix qs qd then Err EINVAL else          (* into its own subtree *)
+              if is_prefix qd qs then Err ENOTEMPTY else       (* onto one of its ancestors *)
               match ns with
               | Dir =>
-                  if is_prefix qs qd then Err EINVAL else
                   match node_at t qd with
                   | None => Ok (move_tree t qs qd)
                   | Some Dir => if has_child t qd then Err ENOTEMPTY else Ok (move_tree (del t qd) qs qd)
